@@ -13,3 +13,7 @@ Check (C05_initialiser_rebuilds_the_map) : (forall l i, rebuild (restored_map (r
 Print Assumptions C05_initialiser_rebuilds_the_map.
 Check (C05_transient_restarts_at_default) : (forall persistent l n i, log_ok persistent l = true -> persistent i = false -> restored_value (replay (firstn n l)) i = 0%Z /\ restored_map (replay (firstn n l)) i = []).
 Print Assumptions C05_transient_restarts_at_default.
+Check (C05_write_task_provenance) : (forall persistent ss, provenance_ok (handled ss) (w_log (wtask_run persistent ss)) = true).
+Print Assumptions C05_write_task_provenance.
+Check (C05_stored_value_was_reported) : (forall cmds l n i, provenance_ok cmds l = true -> puts i (firstn n l) <> [] -> existsb (cmd_is_put i (restored_value (replay (firstn n l)) i)) cmds = true).
+Print Assumptions C05_stored_value_was_reported.
